@@ -1141,6 +1141,191 @@ def translate(repo: str):
     return out
 
 
+# ------------------------------------------------------------------------------------------------
+# StreamTransport (transport/__init__.py) -> Generated/StreamBodies.lean over Model/LitStream.lean
+
+T_ERRORS = {"TransportError": ".transportError", "TransportReadError": ".transportRead", "TransportFailedError": ".transportFailed"}
+
+
+class TrStream:
+    def __init__(self, fn, method: str):
+        self.fn = fn
+        self.globals = fn.__globals__
+        self.method = method
+        self.env = {}          # local name -> ("bytes", lean) | ("str", lean)
+
+    def is_self_attr(self, node, attr) -> bool:
+        return isinstance(node, ast.Attribute) and node.attr == attr and isinstance(node.value, ast.Name) and node.value.id == "self"
+
+    def exc_name(self, node) -> str:
+        if isinstance(node, ast.Name):
+            name = node.id
+        elif isinstance(node, ast.Attribute) and isinstance(node.value, ast.Name) and node.value.id == "asyncio":
+            name = node.attr
+        else:
+            raise Untranslatable("except class expression")
+        if name not in PYEXN:
+            raise Untranslatable(f"except class {name} outside the model's vocabulary")
+        return name
+
+    def lib_raise(self, stmt) -> str:
+        if not (isinstance(stmt, ast.Raise) and stmt.exc is not None):
+            raise Untranslatable("not a raise")
+        e = stmt.exc
+        name = e.func.id if isinstance(e, ast.Call) and isinstance(e.func, ast.Name) else (e.id if isinstance(e, ast.Name) else None)
+        if name not in T_ERRORS or self.globals.get(name) is None:
+            raise Untranslatable(f"raise of {name}")
+        return T_ERRORS[name]
+
+    def simple(self, st) -> str:
+        """One statement inside a try body -> TM term (TM Unit, or TM Bytes / TM Str for the two value forms)."""
+        # self.reader, self.writer = await self._open_connection()
+        if isinstance(st, ast.Assign) and len(st.targets) == 1 and isinstance(st.targets[0], ast.Tuple):
+            t = st.targets[0].elts
+            v = st.value
+            if len(t) == 2 and self.is_self_attr(t[0], "reader") and self.is_self_attr(t[1], "writer") \
+                    and isinstance(v, ast.Await) and isinstance(v.value, ast.Call) and self.is_self_attr(v.value.func, "_open_connection") \
+                    and not v.value.args and not v.value.keywords:
+                return "(LS.openConnection limit fault)"
+        # name = await self.reader.readuntil(TERMINATOR)
+        if isinstance(st, ast.Assign) and len(st.targets) == 1 and isinstance(st.targets[0], ast.Name) and isinstance(st.value, ast.Await):
+            c = st.value.value
+            if isinstance(c, ast.Call) and isinstance(c.func, ast.Attribute) and c.func.attr == "readuntil" \
+                    and self.is_self_attr(c.func.value, "reader") and len(c.args) == 1 and isinstance(c.args[0], ast.Name) \
+                    and self.globals.get(c.args[0].id) == b"\n" and not c.keywords:
+                self.env[st.targets[0].id] = "bytes"
+                return ("bind", st.targets[0].id, "LS.readuntil")
+        if isinstance(st, ast.Expr):
+            v = st.value
+            aw = isinstance(v, ast.Await)
+            c = v.value if aw else v
+            if isinstance(c, ast.Call) and isinstance(c.func, ast.Attribute) and self.is_self_attr(c.func.value, "writer") and not c.keywords:
+                if c.func.attr == "close" and not aw and not c.args:
+                    return "(LS.close fault)"
+                if c.func.attr == "wait_closed" and aw and not c.args:
+                    return "(LS.waitClosed fault)"
+                if c.func.attr == "drain" and aw and not c.args:
+                    return "(LS.drain fault)"
+                if c.func.attr == "write" and not aw and len(c.args) == 1:
+                    a = c.args[0]
+                    if isinstance(a, ast.Call) and isinstance(a.func, ast.Attribute) and a.func.attr == "encode" and not a.args \
+                            and not a.keywords and isinstance(a.func.value, ast.Name) and a.func.value.id == "decoded_message":
+                        return "(LS.writerWrite line fault)"
+        # return name.decode()
+        if isinstance(st, ast.Return) and isinstance(st.value, ast.Call) and isinstance(st.value.func, ast.Attribute) \
+                and st.value.func.attr == "decode" and not st.value.args and not st.value.keywords \
+                and isinstance(st.value.func.value, ast.Name) and self.env.get(st.value.func.value.id) == "bytes":
+            return ("ret", f"(LS.decode decodeUtf8 {st.value.func.value.id})")
+        raise Untranslatable(f"stream statement {ast.unparse(st)[:60]}")
+
+    def try_(self, st: ast.Try, rest) -> str:
+        if st.finalbody or st.orelse or not st.handlers:
+            raise Untranslatable("try shape")
+        body = strip(st.body)
+        parts = [self.simple(b) for b in body]
+        bound = None
+        returns = False
+        if len(parts) == 1 and isinstance(parts[0], tuple) and parts[0][0] == "bind":
+            bound = parts[0][1]
+            inner = parts[0][2]
+        elif len(parts) == 1 and isinstance(parts[0], tuple) and parts[0][0] == "ret":
+            returns = True
+            inner = parts[0][1]
+        else:
+            if any(isinstance(x, tuple) for x in parts):
+                raise Untranslatable("value statement inside a multi-statement try")
+            inner = parts[-1]
+            for x in reversed(parts[:-1]):
+                inner = f"(TM.seq {x} {inner})"
+        # handlers: all `raise Lib(...)`, or a single `pass`
+        hs = st.handlers
+        if len(hs) == 1 and len(strip(hs[0].body)) == 1 and isinstance(strip(hs[0].body)[0], ast.Pass):
+            elts = hs[0].type.elts if isinstance(hs[0].type, ast.Tuple) else [hs[0].type]
+            cl = "[" + ", ".join("." + self.exc_name(e) for e in elts) + "]"
+            term = f"(TM.suppress {inner} {cl})"
+        else:
+            clauses = []
+            for h in hs:
+                if h.type is None:
+                    raise Untranslatable("bare except")
+                elts = h.type.elts if isinstance(h.type, ast.Tuple) else [h.type]
+                hb = strip(h.body)
+                if len(hb) != 1:
+                    raise Untranslatable("except clause that does more than raise")
+                clauses.append("([" + ", ".join("." + self.exc_name(e) for e in elts) + "], " + self.lib_raise(hb[0]) + ")")
+            term = f"(TM.catchMap {inner} [" + ", ".join(clauses) + "])"
+        if returns:
+            if rest:
+                raise Untranslatable("code after return")
+            return term
+        if bound:
+            return f"(TM.bind {term} fun {bound} =>\n  {self.block(rest)})"
+        if not rest:
+            return term
+        return f"(TM.seq {term}\n  {self.block(rest)})"
+
+    def block(self, stmts) -> str:
+        stmts = strip(stmts)
+        if not stmts:
+            return "(TM.pure ())"
+        st, rest = stmts[0], stmts[1:]
+        if isinstance(st, ast.If) and not st.orelse and isinstance(st.test, ast.Compare) and len(st.test.ops) == 1 \
+                and isinstance(st.test.ops[0], ast.Is) and isinstance(st.test.comparators[0], ast.Constant) \
+                and st.test.comparators[0].value is None and len(strip(st.body)) == 1:
+            if self.is_self_attr(st.test.left, "reader"):
+                cond = "LS.readerIsNone"
+            elif self.is_self_attr(st.test.left, "writer"):
+                cond = "LS.writerIsNone"
+            else:
+                raise Untranslatable("guard on something else than self.reader / self.writer")
+            b = strip(st.body)[0]
+            if isinstance(b, ast.Return) and b.value is None:
+                then = "(TM.pure ())"
+            else:
+                then = f"(TM.raise (.lib {self.lib_raise(b)}))"
+            return f"(TM.bind {cond} fun c => if c then {then}\n  else {self.block(rest)})"
+        if isinstance(st, ast.Try):
+            return self.try_(st, rest)
+        raise Untranslatable(f"stream statement {ast.unparse(st)[:60]}")
+
+
+STREAM_SIGS = {
+    "connect": ("(limit : Nat) (fault : Option PyExn)", "TM Unit"),
+    "disconnect": ("(fault : CloseFault)", "TM Unit"),
+    "read": ("(decodeUtf8 : Bytes → Option Str)", "TM Str"),
+    "write": ("(line : Str) (fault : WriteFault)", "TM Unit"),
+}
+
+STREAM_HEADER = """/-
+GENERATED by tools/translate.py from `StreamTransport` (transport/__init__.py) of the aiomysensors working tree — do not edit.
+Regenerated on every check run of C03 / C17; rewritten only when its content changes.  A definition marked
+`-- snapshot` could not be translated on this run and is the last committed translation.
+-/
+import AioMySensors.Model.LitStream
+
+set_option linter.unusedVariables false
+
+namespace AioMySensors.GenStream
+open AioMySensors AioMySensors.Stream
+
+"""
+
+
+def translate_stream(repo: str):
+    sys.path.insert(0, os.path.join(repo, "src"))
+    mod = importlib.import_module("aiomysensors.transport")
+    out = {}
+    for name, (binders, typ) in STREAM_SIGS.items():
+        try:
+            fn = mod.StreamTransport.__dict__[name]
+            tr = TrStream(fn, name)
+            text = tr.block(fn_ast(fn).body)
+            out[name] = {"lean": f"def {name} {binders} : {typ} :=\n  {text}"}
+        except (Untranslatable, KeyError, TypeError, OSError, AttributeError, IndexError) as err:
+            out[name] = {"error": f"{type(err).__name__}: {err}"[:300]}
+    return out
+
+
 HEADER = """/-
 GENERATED by tools/translate.py from the handler bodies of the aiomysensors working tree — do not edit.
 Regenerated on every check run; rewritten only when its content changes.  A definition marked
@@ -1254,6 +1439,7 @@ def main() -> int:
     ap.add_argument("--snapshot", required=True, help="tools/bodies_snapshot.json (read; written with --update-snapshot)")
     ap.add_argument("--json", default=None, help="write the per-body status here")
     ap.add_argument("--update-snapshot", action="store_true")
+    ap.add_argument("--stream-out", default=None, help="also translate StreamTransport into this file")
     ap.add_argument("--force-snapshot", action="store_true", help="write every body from the snapshot")
     a = ap.parse_args()
     try:
@@ -1297,6 +1483,43 @@ def main() -> int:
     if a.json:
         with open(a.json, "w", encoding="utf-8") as f:
             json.dump(status, f, indent=1, sort_keys=True)
+    if a.stream_out:
+        try:
+            sres = {} if a.force_snapshot else translate_stream(a.repo)
+        except Exception as err:  # noqa: BLE001
+            print(f"TRANSLATE-STREAM-FAILED {type(err).__name__}: {err}")
+            sres = {}
+        schunks = []
+        for name in STREAM_SIGS:
+            key = "stream." + name
+            r = sres.get(name, {"error": "snapshot forced" if a.force_snapshot else "not attempted"})
+            if "lean" in r:
+                schunks.append(r["lean"])
+                status[key] = "translated" if snap.get(key) == r["lean"] else "translated-changed"
+            elif key in snap:
+                schunks.append("-- snapshot (untranslatable on this run: " + r["error"].replace("\n", " ") + ")\n" + snap[key])
+                status[key] = "untranslatable: " + r["error"]
+            else:
+                print(f"TRANSLATE-FAILED {key}: {r['error']} (and no snapshot)")
+                return 1
+        stext = STREAM_HEADER + "\n\n".join(schunks) + "\n\nend AioMySensors.GenStream\n"
+        try:
+            with open(a.stream_out, encoding="utf-8") as f:
+                sold = f.read()
+        except OSError:
+            sold = None
+        if sold != stext:
+            with open(a.stream_out, "w", encoding="utf-8") as f:
+                f.write(stext)
+        if a.update_snapshot:
+            with open(a.snapshot, encoding="utf-8") as f:
+                cur = json.load(f)
+            cur.update({"stream." + n: sres[n]["lean"] for n in STREAM_SIGS if "lean" in sres.get(n, {})})
+            with open(a.snapshot, "w", encoding="utf-8") as f:
+                json.dump(cur, f, indent=1, sort_keys=True)
+        if a.json:
+            with open(a.json, "w", encoding="utf-8") as f:
+                json.dump(status, f, indent=1, sort_keys=True)
     bad = [n for n, s in status.items() if s.startswith("untranslatable")]
     changed = [n for n, s in status.items() if s == "translated-changed"]
     print(f"TRANSLATE-OK bodies={len(status)} untranslatable={len(bad)} changed={len(changed)}"
